@@ -255,27 +255,28 @@ func (s *seqCounters) add(seqNr uint32) {
 		s.counters[s._nrCounters] = seqCounter{seqNr: seqNr, count: 1}
 		s._nrCounters++
 	default: // seqNr is in the current window
-		for i := 0; i < int(s._nrCounters); i++ {
-			if seqNr == s.counters[i].seqNr {
-				s.counters[i].count++
-				return
-			}
+		n := int(s._nrCounters)
+		idx := 0 // First position with a sequence number that is not smaller
+		for idx < n && s.counters[idx].seqNr < seqNr {
+			idx++
 		}
-		// seqNr is not in the counters, we need to insert it
-		// We can insert in the middle and keep all previous counters
-		for i := s._nrCounters - 1; i >= 1; i-- {
-			if seqNr > s.counters[i-1].seqNr {
-				if s._nrCounters < s.windowSize {
-					// Shift counters i to s._nrCounters-1 to i+1 to s._nrCounters
-					copy(s.counters[i+1:s._nrCounters], s.counters[i:s._nrCounters-1])
-				} else {
-					// Shift counters 1 to i-1 to 0 to i-2
-					copy(s.counters[1:i], s.counters[:i-1])
-				}
-				s.counters[i-1] = seqCounter{seqNr: seqNr, count: 1}
-				return
-			}
+		if idx < n && s.counters[idx].seqNr == seqNr {
+			s.counters[idx].count++
+			return
 		}
+		// seqNr is not in the counters, so insert it at idx and keep the order
+		if s._nrCounters < s.windowSize {
+			copy(s.counters[idx+1:n+1], s.counters[idx:n])
+			s.counters[idx] = seqCounter{seqNr: seqNr, count: 1}
+			s._nrCounters++
+			return
+		}
+		if idx == 0 {
+			return // Full and older than all counters
+		}
+		// Full. Drop the oldest counter to make room
+		copy(s.counters[:idx-1], s.counters[1:idx])
+		s.counters[idx-1] = seqCounter{seqNr: seqNr, count: 1}
 	}
 }
 
